@@ -16,7 +16,9 @@ run_one() {
     echo "SKIP $name: patch does not apply to HEAD"; git -C /repo worktree remove --force "$wt"; return
   fi
   local out; out=$(mktemp -d /tmp/mutout-XXXX)
-  VERIF_REPO="$wt" VERIF_OUT="$out" "$V/bin/verifctl" check "$prop" -budget "$BUDGET" > "$out/log" 2>&1
+  # the sweep only asks whether the check finds anything: stop exploring at the first violation that is
+  # not a listed known finding (it is still minimised and confirmed by replay before it is reported)
+  VERIF_STOP_FIRST=1 VERIF_REPO="$wt" VERIF_OUT="$out" "$V/bin/verifctl" check "$prop" -budget "$BUDGET" > "$out/log" 2>&1
   local rc=$?
   if [ $rc -eq 1 ] && grep -q "^VIOLATION property=$prop" "$out/log"; then
     echo "CAUGHT  $name by $prop: $(grep -m1 '^violation class' "$out/log" | cut -c1-160)"; pass=$((pass+1))
